@@ -131,6 +131,9 @@ func (m *Monitors) stickyFailed(inv *simapi.Invocation) {
 		if byCmd {
 			m.viol("C19", "C19.fail-not-lost", map[string]string{"write": c.Verb}, inv, d)
 		}
+		// C07: "when the canary replica set is marked failed, automatically or by the user, the controller
+		// restores ...": a mark that is wiped out can never lead to the rollback
+		m.viol("C07", "C07.failure-mark-kept", map[string]string{"set-by-command": fmt.Sprint(byCmd), "write": c.Verb}, inv, d)
 	}
 }
 
@@ -453,6 +456,15 @@ func (m *Monitors) onERS(inv *simapi.Invocation, out kit.Outcome) {
 			if c.Pre != nil && c.Pre.(*corev1.Pod).Status.Phase == corev1.PodUnknown {
 				ctx.Count("C01.unknown-pod-label-patches")
 			}
+			// C04: "pods of the canary replica set on canary nodes carry the canary label during the
+			// canary": nobody takes it away from a pod of the replica set that is the canary as read
+			if c.Pre != nil && c.Post != nil && c.Applied() && canaryInProgress && v.EDS.Spec.Strategy.Canary != nil {
+				pre, post := c.Pre.(*corev1.Pod), c.Post.(*corev1.Pod)
+				lk := v1.ExtendedDaemonSetReplicaSetCanaryLabelKey
+				if pre.Labels[lk] != "" && post.Labels[lk] == "" && pre.Labels[v1.ExtendedDaemonSetReplicaSetNameLabelKey] == v.EDS.Status.Canary.ReplicaSet && v.RS.Name != v.EDS.Status.Canary.ReplicaSet {
+					m.viol("C04", "C04.label-kept-during-canary", map[string]string{"role": role}, inv, map[string]any{"pod": podKey(pre), "node": kit.NodeOfPod(pre), "callsite": c.Callsite})
+				}
+			}
 		}
 	}
 	for _, p := range v.Pods {
@@ -607,6 +619,23 @@ func (m *Monitors) onERS(inv *simapi.Invocation, out kit.Outcome) {
 			m.lastAction[key] = now
 		} else {
 			delete(m.lastAction, key) // premise "as long as its status writes succeed" broken
+		}
+	}
+	// C09: "t is the time since its Active condition last became true": when a status write turns the
+	// Active condition true (absent or false before, in the stored image), the transition time it
+	// records must be an instant of this invocation (stored timestamps have one-second resolution)
+	if statusWrite != nil && statusWrite.Applied() && statusWrite.Pre != nil && statusWrite.Post != nil {
+		pre, post := statusWrite.Pre.(*v1.ExtendedDaemonSetReplicaSet), statusWrite.Post.(*v1.ExtendedDaemonSetReplicaSet)
+		pc, qc := kit.Cond(&pre.Status, v1.ConditionTypeActive), kit.Cond(&post.Status, v1.ConditionTypeActive)
+		if qc != nil && qc.Status == corev1.ConditionTrue && (pc == nil || pc.Status != corev1.ConditionTrue) {
+			ctx.Count("C09.sim-active-transitions-judged")
+			start, end := time.Unix(0, inv.VTimeNanos), time.Unix(0, inv.VTimeNanos)
+			if inv.EndVTimeNanos > inv.VTimeNanos {
+				end = time.Unix(0, inv.EndVTimeNanos)
+			}
+			if lt := qc.LastTransitionTime.Time; lt.Before(start.Add(-time.Second)) || lt.After(end.Add(time.Second)) {
+				m.viol("C09", "C09.active-since", map[string]string{"had-condition-before": fmt.Sprint(pc != nil)}, inv, map[string]any{"recorded": lt.String(), "invocation": start.String() + " .. " + end.String(), "before": fmt.Sprintf("%+v", pc)})
+			}
 		}
 	}
 	// (a sync that stops before listing pods - parent not defaulted - re-writes the stored counters
